@@ -229,7 +229,9 @@ def range_cases(draw):
                                    "subpix": draw(st.sampled_from([1, 2]))}],
                 ["disparity", {"disparity_method": "wta", "invalid_disparity": -9999}]]
         use_grid = True
-    p = {"pair": pair, "AB": [A, B], "pipeline": pipe}
+    p = {"pair": pair, "AB": [A, B], "pipeline": pipe,
+         # the machine may have served before: a coarse-to-fine run (scale factor 2 or 3) or a run over another interval
+         "used": draw(st.sampled_from([None, None, None, "pyramid-2", "pyramid-3", "other-interval"]))}
     if not use_grid and draw(st.integers(0, 3)) == 0:
         ra = -B + draw(st.sampled_from([-2, -1, 1]))
         p["right_interval"] = [ra, max(ra, -A + draw(st.sampled_from([-1, 0, 1, 2])))]
@@ -303,8 +305,18 @@ def range_body(ctx: Ctx, p: dict) -> None:
                     ctx.violation(f"C09/disparity-outside-own-interval-after-{kind}",
                                   f"pixel {(int(r), int(c))} d={d[r, c]} interval [{lo[r, c]},{hi[r, c]}] step {step}")
 
+    machine = None
+    if p.get("used"):
+        from pandora.state_machine import PandoraMachine
+
+        machine = PandoraMachine()
+        wl = ((np.arange(30)[:, None] * 7 + np.arange(36)[None, :] * 13) % 23).astype(np.float32)
+        warm = {"matching_cost": {"matching_cost_method": "sad", "window_size": 3}, "disparity": {"disparity_method": "wta"}}
+        if p["used"].startswith("pyramid"):
+            warm["multiscale"] = {"multiscale_method": "fixed_zoom_pyramid", "num_scales": 2, "scale_factor": int(p["used"][-1])}
+        drive.run_pipeline(wl, np.roll(wl, 2, axis=1), warm, (-4, 3), machine=machine)
     res = drive.run_pipeline(pipeline=gen.pipe_dict(p["pipeline"]), disp=disp, right_disp=right_disp,
-                             spy=drive.Spy(after=after, before=before), **kw)
+                             spy=drive.Spy(after=after, before=before), machine=machine, **kw)
     d, m = res.left["disparity_map"].data, res.left["validity_mask"].data
     valid = (m & INV) == 0
     bad = valid & ~((d >= gmin - 1e-6) & (d <= gmax + 1e-6))
@@ -344,6 +356,8 @@ def range_body(ctx: Ctx, p: dict) -> None:
         classes.append("filling")
     if rlo is not None:
         classes.append("right-image-own-interval")
+    if p.get("used"):
+        classes.append("machine-served-before:" + p["used"])
     ctx.case(p, nontrivial=bool(state["changed"]), classes=classes)
 
 
